@@ -62,6 +62,7 @@ NextVid(s) == "v" \o ToString(Cardinality(s.vids) + 1)
 NextUid(s) == "u" \o ToString(Cardinality(s.uids) + 1)
 NoMeta == <<>>
 MetaA == [m1 |-> "A"]
+MetaB == [ct |-> "T", ce |-> "E", cd |-> "D", m2 |-> "B"]
 
 \* every version id a client could know: the ones replies revealed
 KnownVids(s, b, k) == IF HasB(s, b) THEN {v.vid : v \in {x \in ToSet(Stack(s, b, k)) : ~x.nul /\ SubSeq(x.vid, 1, 1) # "?"}} ELSE {}
@@ -80,6 +81,10 @@ Ops(s) ==
 \cup (IF On("PutObject")    THEN {[op |-> "PutObject", b |-> b, k |-> k, body |-> bd, meta |-> NoMeta, vid |-> NextVid(s)]
                                     : b \in Buckets, k \in KeySet, bd \in BodySet} ELSE {})
 \cup (IF On("PutMeta")      THEN {[op |-> "PutObject", b |-> b, k |-> k, body |-> bd, meta |-> MetaA, vid |-> NextVid(s)]
+                                    : b \in Buckets, k \in KeySet, bd \in BodySet} ELSE {})
+\cup (IF On("PutMetaB")     THEN {[op |-> "PutObject", b |-> b, k |-> k, body |-> bd, meta |-> MetaB, vid |-> NextVid(s)]
+                                    : b \in Buckets, k \in KeySet, bd \in BodySet} ELSE {})
+\cup (IF On("PostMeta")     THEN {[op |-> "PostObject", b |-> b, k |-> k, body |-> bd, meta |-> MetaA, vid |-> NextVid(s)]
                                     : b \in Buckets, k \in KeySet, bd \in BodySet} ELSE {})
 \cup (IF On("PostObject")   THEN {[op |-> "PostObject", b |-> b, k |-> k, body |-> bd, meta |-> NoMeta, vid |-> NextVid(s)]
                                     : b \in Buckets, k \in KeySet, bd \in BodySet} ELSE {})
